@@ -138,7 +138,7 @@ pub fn run(ctx: &Ctx) {
     ctx.rule("generated builder specifications: model parameter lists of length 1..10 in random order, 1..5 functions of arity 1..10 over random ordered subsets (the last one covering unused parameters), derivatives supplied in random order, up to two invariant functions at random positions, N in 1..9, f32/f64, 4 parameter vectors with pairwise distinct entries per model. Functions and derivatives are asymmetric position codes (sum_i (i+2)·sin((i+1)·a_i + x + j)); the oracle calls the same code with the arguments it routes by name and compares bitwise; columns of functions not depending on parameter k must be exactly zero; params() must return what was set. non-trivial = at least two model parameters and a function of arity >= 2; distinct = specification hash");
     ctx.assume("bitwise comparison is sound: the same closure evaluated on the same arguments on the same machine");
     let t = ctx.tier;
-    ctx.run_cases("routing", t.pick(30000, 200000), t.pick(15.0, 150.0), case);
+    ctx.run_cases("routing", t.pick(30000, 600000), t.pick(15.0, 900.0), case);
     if t == Tier::Thorough && ctx.replay.is_none() {
         crate::props::c17::miri_shards(ctx, "C16", 8, "40", "4");
     } else {
